@@ -336,7 +336,9 @@ def pass_through(ctx):
     ctx.rule(R, 'multitarget_rule and command_build forward the dependency '
              'arguments they receive to the statement they register; with '
              'several targets the stamp file carries the dependencies and '
-             'every target depends on the stamp')
+             'every target depends on the stamp; the forwarded arguments '
+             'carry the caller\'s value on every path (must-flow: extended, '
+             'never replaced)')
     F = _facts(ctx)
     f = F.fn('bfg9000.backends.make.writer:multitarget_rule')
     rules = F.effects(f, lambda e: e.name == 'rule', depth=1)
